@@ -773,6 +773,10 @@ func (s *Subscription) processModelEvent(event *rescache.ResourceEvent) {
 func (s *Subscription) handleReaccess(t *rescache.Throttle) {
 	s.access = nil
 	s.flags &= ^flagReaccess
+	// The answer to an access request already in flight predates this check.
+	if s.flags&flagAccessCalled != 0 {
+		s.flags |= flagAccessStale
+	}
 
 	if s.direct == 0 {
 		return
